@@ -47,7 +47,8 @@ struct SugH {
     snap: Obs,
 }
 
-const WORD: &[char] = &['a', 'm', 'a', 'r', '.', 'k', 'o', ':', 't', 'h', 'a', '`'];
+/// ('\u{1}' stands for a published key WITHOUT a character: keypad Enter)
+const WORD: &[char] = &['a', 'm', 'a', 'r', '.', 'k', '\u{1}', 'o', ':', 't', 'h', 'a', '`'];
 
 impl Replayer {
     pub fn mc_ffi(&mut self, v: &Value) {
@@ -99,7 +100,8 @@ impl Replayer {
                         let p = if f == "riti_get_suggestion_for_key" {
                             let ch = WORD[nkeys % WORD.len()];
                             nkeys += 1;
-                            riti_get_suggestion_for_key(x, self.keys.code_for_char(ch).unwrap(), 0, 0)
+                            let code = if ch == '\u{1}' { 3612 } else { self.keys.code_for_char(ch).unwrap() };
+                            riti_get_suggestion_for_key(x, code, 0, 0)
                         } else {
                             riti_context_backspace_event(x, b)
                         };
